@@ -3,6 +3,10 @@ package ring
 import (
 	"fmt"
 	"testing"
+	"time"
+
+	"go.miragespace.co/specter/spec/chord"
+	"verifharness/internal/ringsim"
 
 	"verifharness/internal/ev"
 
@@ -15,6 +19,9 @@ func TestC02(t *testing.T) {
 	rec.Rule("rapid-generated churn history on real LocalNodes in the ring simulator: initial ring of 1..4 nodes (thorough ..8) with adversarial id layouts, 1..4 phases each launching 1..4 membership actions CONCURRENTLY (join of a fresh id - uniform or adjacent to a known id - through a generated member; graceful Leave of a generated member, never the last), seeded per-call proxy delays (0/200us/2ms, on 0/30/80% of calls), optional partial settling between phases. Membership at the end is taken from observed outcomes (Join returned nil; state Left). Quiet period = up to 60 synchronous maintenance rounds. Oracle per remaining node: predecessor = true predecessor; successor list non-empty, head = true successor, member entries are the consecutive true successors in order, no departed node in the list when more than 4 members remain; all 48 fingers = owner(id+2^(k-1)). Non-trivial: some phase ran a join and a leave concurrently or two actions on adjacent ring positions. Distinct = distinct plans.")
 	rec.Assume("departed nodes in the tail of a successor list are tolerated (counted) when at most 4 members remain (observation O1 in DESIGN.md: the statement speaks of true successors in ring order, which still holds for the member entries)",
 		"the schedule inside one function is left to the Go scheduler; the proxy owns the schedule points at every inter-node call")
+	if ev.Known("C02", sigOrphan) {
+		rec.Witnessed(sigOrphan, c02OrphanWitness())
+	}
 	maxInit := ev.Pick(4, 8)
 	ev.RapidCheck(t, 40, 1200, func(t *rapid.T) {
 		plan := genChurnPlan(maxInit, 4, 4).Draw(t, "plan")
@@ -59,7 +66,81 @@ func TestC02(t *testing.T) {
 		}
 		if c.Problem != "" {
 			doc["problem"] = c.Problem
+			if orphaned(r) {
+				// known class: every node a survivor lists as successor left gracefully within one
+				// stabilization period, the survivor can never repair its pointers
+				if ev.Known("C02", sigOrphan) {
+					rec.Excluded(sigOrphan)
+					return
+				}
+				rec.Fail(t, sigOrphan, doc, "after churn and %d maintenance rounds a survivor lists only departed nodes as successors: %s", rounds, c.Problem)
+			}
 			rec.Fail(t, "not-converged:"+problemClass(c.Problem), doc, "after churn and %d maintenance rounds: %s", rounds, c.Problem)
 		}
 	})
+}
+
+const sigOrphan = "survivor-lists-only-departed-successors"
+
+// orphaned reports whether some remaining node's successor list contains no
+// remaining member at all (not even itself).
+func orphaned(r *simRing) bool {
+	live := r.live()
+	member := map[uint64]bool{}
+	for _, m := range live {
+		member[m.ID] = true
+	}
+	for _, m := range live {
+		any := false
+		for _, s := range m.Node.VerifSuccessors() {
+			if member[s.ID()] {
+				any = true
+			}
+		}
+		if !any {
+			return true
+		}
+	}
+	return false
+}
+
+// c02OrphanWitness is the deterministic core of the recorded history
+// (replays/C02/survivor-lists-only-departed-successors.json): X has just joined
+// a ring {A, B} - its successor list is [A, B], it does not yet contain X itself
+// - and A and B leave gracefully one after the other before anybody has run a
+// periodic stabilize (long maintenance intervals stand in for "within one
+// stabilization period"). Reports whether X ends up listing only departed nodes.
+func c02OrphanWitness() bool {
+	const (
+		X = uint64(1) << 44
+		A = uint64(2) << 44
+		B = uint64(3) << 44
+	)
+	r := newSimRing(ringsim.Config{Seed: 50, StabilizeInterval: 2 * time.Second, FixFingerInterval: 2 * time.Second, PredCheckInterval: 2 * time.Second})
+	defer r.net.Close()
+	if err := r.buildRing([]uint64{A, B}, func(i int) int { return 0 }); err != nil {
+		return false
+	}
+	if _, c := r.settle(60, true, nil); c.Problem != "" {
+		return false
+	}
+	r.fillLists(20)
+	if _, err := r.join(X, A); err != nil {
+		return false
+	}
+	leaveAndWait := func(id, succ uint64) bool {
+		go r.members[id].Node.Leave()
+		for i := 0; i < 200000; i++ {
+			if r.members[id].Node.VerifState() == chord.Left && r.members[succ].Node.VerifState() == chord.Active {
+				return true
+			}
+			time.Sleep(50 * time.Microsecond)
+		}
+		return false
+	}
+	if !leaveAndWait(A, B) || !leaveAndWait(B, X) {
+		return false
+	}
+	_, c := r.settle(30, false, nil, false)
+	return c.Problem != "" && orphaned(r)
 }
